@@ -1242,6 +1242,11 @@ def op_merge_vertices(cx):
     p = cx.params
     m = _prepare(cx)
     kw = {k: p[k] for k in ("merge_tex", "merge_norm", "digits_vertex", "digits_norm", "digits_uv") if p.get(k) is not None}
+    if p.get("digits_as"):
+        # the digits are annotated `Integer` (int or numpy integer): the same numbers as numpy scalars
+        # (a reviewer's report: 10 ** np.int8(8) wraps to 0 and every vertex is merged into one)
+        ntype = getattr(np, p["digits_as"])
+        kw = {k: (ntype(v) if k.startswith("digits_") else v) for k, v in kw.items()}
     ok, _ = _guard(cx, lambda: m.merge_vertices(**kw))
     if not ok:
         return _finish(cx, True)
@@ -1252,6 +1257,8 @@ def op_merge_vertices(cx):
         "unit_n": None if p.get("merge_norm") else 10.0 ** -(2 if p.get("digits_norm") is None else p["digits_norm"]),
     }
     opt = "merge_tex=%s merge_norm=%s" % (bool(p.get("merge_tex")), bool(p.get("merge_norm")))
+    if p.get("digits_as"):
+        opt += " digits_as=numpy_integer"
     over = grid_class(cx.T, 8 if dv is None else dv)
     if over:
         # the merge options play no part in this input class: one key per symptom
@@ -2094,6 +2101,8 @@ def ops_for(run, rng, T, full):
         for (dv, dn, du) in digit_sets:
             yield "merge_vertices", {"merge_tex": mt, "merge_norm": mn, "digits_vertex": dv, "digits_norm": dn, "digits_uv": du}
     yield "merge_vertices", {"merge_tex": False, "merge_norm": False, "digits_vertex": None, "digits_norm": None, "digits_uv": None}
+    yield "merge_vertices", {"merge_tex": None, "merge_norm": None, "digits_vertex": 8, "digits_norm": 2, "digits_uv": 4,
+                             "digits_as": ("int8", "uint8", "int16", "int64")[int(rng.integers(4))]}
     yield "unmerge_vertices", {}
     yield "remove_unreferenced_vertices", {}
     yield "remove_infinite_values", {}
